@@ -29,7 +29,9 @@ impl<T: Serialize + DeserializeOwned> SerdeYes<T> for Wrap<'_, T> {
     fn roundtrip(&self) -> Rt<T> {
         let s = match serde_json::to_string(self.0) {
             Ok(s) => s,
-            Err(e) => return Rt::FormatCannot(format!("serialize: {e}")),
+            // serde_json never refuses a value because of its numbers (non-finite floats become null, handled below):
+            // a serialisation error is a failure of the type's Serialize implementation
+            Err(e) => return Rt::Failed(format!("serialize: {e}")),
         };
         if s.contains("null") {
             // serde_json writes non-finite floats as null: the format cannot represent the value
